@@ -664,3 +664,6 @@ if bad: reproduced(str(bad))
 not_reproduced()
 """
     return None
+
+# level text addendum (cases added after the seeded-change rounds)
+LEVEL_TEXT = LEVEL_TEXT + ' Also: the band-pass multiplier per bin read through a flat-spectrum FFT probe (overlapping tapers, prime lengths, corners as list/tuple/array), integer-typed signals and abscissae, the taper as a point-wise function (any order, 2-D).'
